@@ -537,10 +537,63 @@ def compare_batch(ctx, batch):
                 ctx.disagree('corr:c12.load', inp, o, rep['ok'])
 
 
+UNIT_EVAL_SCRIPT = r"""
+import sys, json, io, contextlib
+from pgradd.Units import eval_qty
+sys.path.insert(0, %r)
+from harness import lib_units as U
+out = []
+for u in json.load(sys.stdin):
+    with contextlib.redirect_stdout(io.StringIO()):
+        try:
+            r = U.canon_value(eval_qty(u))
+        except Exception as e:
+            r = {'err': type(e).__name__}
+    out.append(r)
+json.dump(out, sys.stdout)
+"""
+
+
+def eval_units_fresh(order):
+    """the live eval_qty on the unit strings `order`, one after the other in a fresh interpreter"""
+    import subprocess, sys, os
+    here = os.path.dirname(os.path.dirname(os.path.abspath(__file__)))
+    r = subprocess.run([sys.executable, '-c', UNIT_EVAL_SCRIPT % here], input=json.dumps(order), capture_output=True, text=True, timeout=300)
+    if r.returncode != 0:
+        raise common.ImplFailure('evaluating the unit strings of the pool', {'units': order}, RuntimeError(r.stderr[-400:]))
+    return json.loads(r.stdout)
+
+
+def unit_semantics(ctx, orders=None):
+    """what a unit string denotes must not depend on which unit strings were read before it in the process: every unit of the
+    pool, evaluated by the live package in several orders (each in a fresh interpreter), against the C10 model's value"""
+    from . import lib_units as U
+    pool = list(L.ALL_UNIT_STRINGS)
+    if orders is None:
+        orders = [pool, pool[::-1]] + [ctx.rng.sample(pool, len(pool)) for _ in range(ctx.n(2, 10))]
+    reps = dict(zip(pool, ctx.model([{'op': 'c10.eval', 'text': u} for u in pool])))
+    for order in orders:
+        for i, (u, impl) in enumerate(zip(order, eval_units_fresh(order))):
+            ctx.count('unit_semantics')
+            ctx.case(None, None)
+            if u in reps and not U.same_outcome(impl, reps[u]):
+                before = order[:i]
+                if before:      # smallest history that still misreads u
+                    bad = lambda sub: not U.same_outcome(eval_units_fresh(sub + [u])[-1], reps[u])
+                    before = [] if bad([]) else common.shrink_list(before, bad, max_steps=60)
+                order = before + [u]
+                i = len(before)
+                ctx.violation('a value written in a unit is read as another SI magnitude or dimension than the unit denotes '
+                              '(after the unit strings read before it)', {'unit': u, 'read_before': order[:i]},
+                              {k: v for k, v in reps[u].items() if k != 'flags'}, impl)
+                break
+
+
 def run(ctx):
     import pgradd.ThermoChem  # noqa
     rng = ctx.rng
     batch = []
+    unit_semantics(ctx)
     for fname, rec in common.load_corpus('C12'):
         ctx.count('corpus')
         replay(ctx, rec)
@@ -683,6 +736,9 @@ def replay(ctx, rec):
     """re-run a recorded library file on the implementation against the specification"""
     inp = rec.get('input', rec)
     before = len(ctx.violations)
+    if 'read_before' in inp:
+        unit_semantics(ctx, [inp['read_before'] + [inp['unit']]])
+        return len(ctx.violations) == before
     d = L.new_dir(ctx, 'c12r-')
     path = os.path.join(d, 'library.yaml')
     text = inp['file'] if 'file' in inp else inp['a']['file']
